@@ -8,13 +8,14 @@ from typing import Dict, List, Optional, Set, Tuple
 from ..cfg import CFG
 from ..model import AnchorError, Program, dotted, kw, last_attr, norm, parent, walk_no_nested
 from ..report import Check
-from .common import calls_in, guards_of, local_assignments, returns_of
+from .common import calls_in, guards_of, local_assignments, need_locals, returns_of
 
 
 def r16_ab(prog: Program, chk: Check) -> None:
     chk.rule("R16.a", "deletions run high-to-low: the loop that executes `del lines[i - 1]` iterates sorted(..., reverse=True)", floor=2)
     chk.rule("R16.b", "the additions are spliced after the last deleted line before the deletions run, so no deletion index is disturbed", floor=2)
     fn = prog.func("node_visitor", "BaseNodeVisitor._apply_changes_to_lines")
+    need_locals(fn, "lines", "changes")
     site = prog.site("node_visitor", fn)
     dels = [n for n in walk_no_nested(fn) if isinstance(n, ast.Delete)]
     if not dels:
@@ -83,6 +84,7 @@ def r16_c(prog: Program, chk: Check) -> None:
 def r16_d(prog: Program, chk: Check) -> None:
     chk.rule("R16.d", "the add-ignores edit is comment-only and code-specific", floor=4)
     fn = prog.func("node_visitor", "BaseNodeVisitor.show_error")
+    need_locals(fn, "this_line", "ignore", "indentation", "lineno", "lines", "ignore_comment", "error_code")
     rep = None
     for c in calls_in(fn, "Replacement", nested=False):
         if any(pol and norm(g) == "self.add_ignores" for g, pol in guards_of(c, fn)):
@@ -135,6 +137,7 @@ def r16_e(prog: Program, chk: Check) -> None:
     chk.ob("R16.e", "analysis_lib::get_line_range_for_node::one-based", "node.lineno" in t and ("range(" in t or "list(" in t), prog.site("analysis_lib", lr), "line ranges must be built from node.lineno (1-based)")
     # interactive consumer subtracts 1 exactly once
     ra = prog.func("node_visitor", "BaseNodeVisitor._run_and_apply_changes")
+    need_locals(ra, "start_lineno", "end_lineno", "offset", "additions", "linenos")
     t = norm(ra)
     chk.ob("R16.e", "node_visitor::BaseNodeVisitor._run_and_apply_changes::patch-convention", "start_lineno - 1 + offset" in t and "end_lineno + offset" in t and "offset += len(additions or []) - len(linenos)" in t, prog.site("node_visitor", ra), "patches use a 0-based start, an exclusive 1-based end and carry the length change forward")
 
